@@ -479,7 +479,14 @@ fn coded_frames_cut(rng: &mut Rng, thorough: bool, sink: &mut Sink) {
         };
         let mut wire = head.clone();
         wire.extend_from_slice(&body[..cut]);
-        let (segs, segname) = crate::respgen::segment(rng, &wire, &crate::respgen::interesting_offsets(&wire, head.len()));
+        let (mut segs, segname) = crate::respgen::segment(rng, &wire, &crate::respgen::interesting_offsets(&wire, head.len()));
+        // one case in three: the peer does not close, the read runs into the read timeout (and the peer stays
+        // silent) — no more a clean end than a close (seed C02-seed13: a timeout behind the end of the compressed
+        // stream read as the end of the body)
+        if i % 3 == 2 {
+            segs.push(Seg::Err(*rng.pick(&[1u8, 2])));
+            segs.push(Seg::Pause);
+        }
         let reads = match rng.below(4) {
             0 => Reads::Drain(crate::resp::DRAIN_BYTES),
             1 => Reads::Drain(8192),
